@@ -144,6 +144,99 @@ fn encryptor_differential(ctx: &Ctx) {
     });
 }
 
+
+/// Public keys in non-canonical encodings. The format and Noise treat a public key as 32 OPAQUE bytes: they are
+/// hashed into h and transmitted exactly as given, while X25519 itself ignores bit 255 and reduces mod p (RFC 7748
+/// section 5). A recipient key with bit 255 set, a sender static key with bit 255 set, and recipient keys p+k
+/// (2 <= k <= 18, not low order) are therefore legal inputs for which the documented bytes are well defined:
+/// the encryptor's output must equal the specification's, specification-made files must decrypt with the
+/// recipient key given in that encoding, and the sender reported must be the 32 bytes the file carries.
+fn noncanonical_public_keys(ctx: &Ctx) {
+    let n = ctx.tier.pick(24, 600);
+    let p25519 = {
+        let mut p = [0xffu8; 32];
+        p[0] = 0xed;
+        p[31] = 0x7f;
+        p
+    };
+    par_for(n, crate::util::ncpu(), |i| {
+        let mut rng = Rng::fork(ctx.seed, &format!("C06-noncanon-{}", i));
+        let k = fresh_keys(&mut rng);
+        let ptlen = *rng.pick(&[0usize, 1, 40, 70_000]);
+        let pt = rng.bytes(ptlen);
+        let (e, pl) = (rng.arr32(), rng.arr32());
+        let top = |b: &[u8; 32]| {
+            let mut v = *b;
+            v[31] |= 0x80;
+            v
+        };
+        // (what, sender public bytes claimed, recipient public bytes, can the holder of r_priv decrypt it?)
+        let mut variants: Vec<(&str, [u8; 32], [u8; 32], bool)> = vec![
+            ("recipient key with bit 255 set", k.s_pub, top(&k.r_pub), true),
+            ("sender static key with bit 255 set", top(&k.s_pub), k.r_pub, true),
+            ("both with bit 255 set", top(&k.s_pub), top(&k.r_pub), true),
+        ];
+        let kk = 2 + (i % 17) as u8; // p + k, k in 2..=18
+        let mut pk_plus = p25519;
+        pk_plus[0] = pk_plus[0].wrapping_add(kk); // 0xed + k <= 0xff for k <= 18
+        variants.push(("recipient key p+k (u >= p)", k.s_pub, pk_plus, false));
+        variants.push(("recipient key p+k with bit 255 set", k.s_pub, top(&pk_plus), false));
+        for (what, s_pub, r_pub, decryptable) in variants {
+            let io = Io::new(Sched::all(), Sched::all());
+            let case = || json!({"variant": what, "sender_private": hex(&k.s_priv), "sender_public_given": hex(&s_pub), "recipient_public_given": hex(&r_pub), "ephemeral_private": hex(&e), "payload_key": hex(&pl), "len": pt.len()});
+            ctx.eval();
+            let want = refspec::encode_key_file(&k.s_priv, &s_pub, &r_pub, &e, &pl, &pt, &refspec::natural_chunking(pt.len(), 65536));
+            let run = key_encrypt_run(&pt, &io, &KeyEnc { s_priv: &k.s_priv, s_pub: &s_pub, r_pub: &r_pub, e_priv: Some(e), payload: Some(pl) });
+            match (&want, run.outcome.is_ok()) {
+                (None, false) => {
+                    ctx.seen("non-canonical recipient of low order refused by both");
+                    continue;
+                }
+                (None, true) => {
+                    // C05's business (low-order recipient); not judged here
+                    continue;
+                }
+                (Some(_), false) => {
+                    ctx.violation(&format!("C06:key:encrypt-failed-for-a-non-canonical-public-key-encoding:{}", sig_class(&run.outcome)), case());
+                    continue;
+                }
+                (Some(w), true) => {
+                    if *w != run.out {
+                        let first = w.iter().zip(run.out.iter()).position(|(a, b)| a != b).unwrap_or(w.len().min(run.out.len()));
+                        let mut v = case();
+                        v["first_difference_at"] = json!(first);
+                        ctx.violation("C06:key:bytes-differ-from-specification:non-canonical-public-key-encoding", v);
+                        continue;
+                    }
+                }
+            }
+            if decryptable {
+                // a specification-made file (other ephemeral / payload key) read back with the key given in that encoding
+                let f = refspec::encode_key_file(&k.s_priv, &s_pub, &r_pub, &rng.arr32(), &rng.arr32(), &pt, &refspec::natural_chunking(pt.len(), 65536)).unwrap();
+                let d = key_decrypt_run(&f, &io, &k.r_priv, &r_pub);
+                ctx.eval();
+                match &d.outcome {
+                    Outcome::Ok(Some(s)) if d.out == pt && *s == s_pub => {}
+                    Outcome::Ok(Some(s)) if d.out == pt => {
+                        let mut v = case();
+                        v["sender_reported"] = json!(hex(s));
+                        ctx.violation("C06:key:sender-reported-differs-from-the-bytes-in-the-file:non-canonical-public-key-encoding", v);
+                        continue;
+                    }
+                    other => {
+                        let mut v = case();
+                        v["result"] = json!(other.class());
+                        ctx.violation("C06:key:conforming-file-not-decrypted:non-canonical-public-key-encoding", v);
+                        continue;
+                    }
+                }
+            }
+            ctx.seen(&format!("non-canonical public key encodings: encryptor==spec, spec file decrypts, sender bytes exact ({})", what));
+            ctx.distinct(&format!("noncanon|{}|{}|{}", what, i, pt.len()));
+        }
+    });
+}
+
 fn region_key(first: usize, chunking: &[usize]) -> &'static str {
     if first < 4 {
         "magic"
@@ -649,6 +742,7 @@ pub fn run(ctx: &Ctx) {
     ctx.assume("the specification in refspec.rs is a faithful reading of docs/file-format.txt, Noise rev 34 and the RFCs (anchored by published vectors and the repository fixtures)");
     ctx.assume("'earlier 1.x releases' are represented only by the two fixtures in the repository; no older binaries exist offline");
     encryptor_differential(ctx);
+    noncanonical_public_keys(ctx);
     decryptor_accepts_spec_files(ctx);
     small_bodies(ctx);
     noise_differential(ctx);
@@ -663,6 +757,7 @@ pub fn run(ctx: &Ctx) {
     ctx.require("file left at -o conforms exactly (path holding longer content)", 6);
     ctx.require("cli decrypts the repository fixture", 4);
     ctx.require("encryptor==spec key mode", 20);
+    ctx.require("non-canonical public key encodings", 60);
     ctx.require("encryptor==spec password mode", 10);
     ctx.require("decryptor accepts spec-made", 40);
     ctx.require("golden file decrypts", 20);
